@@ -202,11 +202,20 @@ def compare_eval(rec: Dict[str, Any], tbl: "DocTable", *, styles: Sequence[int],
                 doc = untag(tbl.docs[d]["doc"], floats=fl)
                 try:
                     kw = {"filter_context": ctx} if ctx is not None else {}
+                    if d > 0 and not fl:
+                        # an iterator over the previous document that is abandoned after one match must not
+                        # influence this evaluation (the compiled query is shared by all documents)
+                        next(iter(path.finditer(untag(tbl.docs[d - 1]["doc"]), **kw)), None)
                     ms = list(path.finditer(doc, **kw))
                     obs = [lockey(parts_to_loc(m.parts)) for m in ms]
                     disc = ""
                     if obs != exp:
                         disc = "selects-other-nodes" if sorted(map(repr, obs)) != sorted(map(repr, exp)) else "wrong-order"
+                    elif not fl:
+                        # the async twin selects the same nodes
+                        avals = _drive(path.findall_async(doc, **kw))
+                        if len(avals) != len(ms) or any(a is not m.obj for a, m in zip(avals, ms)):
+                            disc = "async-twin-selects-other-nodes"
                 except BaseException as ex:  # noqa: BLE001
                     disc = f"evaluate-raised-{exc_family(ex)}"
                     obs = []
@@ -227,6 +236,15 @@ def compare_eval(rec: Dict[str, Any], tbl: "DocTable", *, styles: Sequence[int],
                                    "expected": [list(loc_to_parts_k(l)) for l in exp][:40], "observed": [list(loc_to_parts_k(l)) for l in obs][:40],
                                    "tagged": rec}, disc)]
     return []
+
+
+def _drive(coro: Any) -> Any:
+    """Run a coroutine that never really suspends (no event loop needed)."""
+    try:
+        while True:
+            coro.send(None)
+    except StopIteration as e:
+        return e.value
 
 
 def loc_to_parts_k(key: Tuple[Any, ...]) -> List[Any]:
